@@ -40,7 +40,6 @@ pub struct Out {
     pub timed_out: bool,
     pub stdout: String,
     pub stderr: String,
-    pub ms: u64,
 }
 impl Out {
     pub fn ok(&self) -> bool {
@@ -146,7 +145,7 @@ impl Runner {
             let b = if b.len() > (1 << 20) { b[..1 << 20].to_vec() } else { b };
             String::from_utf8_lossy(&b).into_owned()
         };
-        let out = Out { code: status.code(), signal: status.signal(), timed_out, stdout: rd(&so), stderr: rd(&se), ms: t0.elapsed().as_millis() as u64 };
+        let out = Out { code: status.code(), signal: status.signal(), timed_out, stdout: rd(&so), stderr: rd(&se) };
         let _ = std::fs::remove_file(&so);
         let _ = std::fs::remove_file(&se);
         out
